@@ -20,6 +20,7 @@ import (
 
 	"github.com/compose-spec/compose-go/v2/loader"
 	"github.com/compose-spec/compose-go/v2/types"
+	"gopkg.in/yaml.v3"
 
 	"verif/harness/internal/core"
 )
@@ -195,6 +196,16 @@ func kindValue(kind string) interface{} {
 		return rawYAML("{1: x, 2: y}")
 	case "nested-list":
 		return []interface{}{[]interface{}{"a"}}
+	case "odd-strings":
+		return []interface{}{"", "host=", "a:", "=b", "x${UNSET_VAR_Q}", " "}
+	case "odd-string":
+		return "${UNSET_VAR_Q}"
+	case "odd-map":
+		return map[string]interface{}{"k": "", "": "v", "e": nil, "n": 3}
+	case "reset-tag":
+		return rawYAML("!reset null")
+	case "override-tag":
+		return rawYAML("!override {k: v}")
 	}
 	return nil
 }
@@ -519,6 +530,10 @@ func C01(c *core.Ctx) {
 				cc.Files["base.yaml"], cc.Files["over.yaml"], cc.Main = doc, "services:\n  a:\n    labels: {x: y}\n", []string{"base.yaml", "over.yaml"}
 			case "included":
 				cc.Files["inc.yaml"], cc.Files["compose.yaml"], cc.Main = doc, "include:\n  - inc.yaml\nservices:\n  main: {image: img}\n", []string{"compose.yaml"}
+			case "pair-map", "pair-list", "pair-string":
+				bk := map[string]string{"pair-map": "map", "pair-list": "list-of-strings", "pair-string": "string"}[pos]
+				cc.Files["base.yaml"], cc.Files["over.yaml"], cc.Main = flowYAML(graft(sp.Path, kindValue(bk))), doc, []string{"base.yaml", "over.yaml"}
+				cc.Expect = "either"
 			case "extended-base", "extending":
 				if !underSvc {
 					return nil
@@ -603,6 +618,136 @@ func C01(c *core.Ctx) {
 	} {
 		cases = append(cases, c01Case{ID: len(cases), Family: "alias", Desc: d, Expect: "either", Files: map[string]string{"compose.yaml": d}, Main: []string{"compose.yaml"}})
 	}
+	// shapes that need more than one file
+	multi := []map[string]string{
+		{"compose.yaml": "include:\n  - path: [b.yaml, compose.yaml]\nservices:\n  a: {image: img}\n", "b.yaml": "services:\n  b: {image: img}\n"},
+		{"compose.yaml": "include:\n  - path: [b.yaml]\nservices:\n  a: {image: img}\n", "b.yaml": "include:\n  - path: [c.yaml, compose.yaml]\nservices:\n  b: {image: img}\n", "c.yaml": "services:\n  c: {image: img}\n"},
+		{"compose.yaml": "services:\n  a:\n    image: img\n    extends: {service: y, file: 1}\n"},
+		{"compose.yaml": "services:\n  a:\n    image: img\n    extends: {service: y, file: [x]}\n"},
+		{"compose.yaml": "!reset\nservices:\n  a: {image: img}\n"},
+		{"compose.yaml": "!override\nservices:\n  a: {image: img}\n"},
+		{"compose.yaml": "x-a: &a {\"<<foo\": *a}\nservices:\n  a: {image: img}\n"},
+		{"compose.yaml": "x-a: &a\n  <<: *a\nservices:\n  a: {image: img}\n"},
+		{"compose.yaml": "services:\n  a: &a\n    image: img\n    <<: [*a]\n"},
+	}
+	for _, m := range multi {
+		cases = append(cases, c01Case{ID: len(cases), Family: "alias", Desc: m["compose.yaml"], Expect: "either", Files: m, Main: []string{"compose.yaml"}})
+	}
+	// two-file overrides of one attribute with a value of another kind on the second side (mergers see both)
+	for _, pr := range [][2]string{{"logging: {driver: json-file}", "logging: foo"}, {"logging: {driver: json-file}", "logging: [a]"}, {"build: {context: .}", "build: null"}, {"build: ./x", "build: [a]"},
+		{"depends_on: [b]", "depends_on: x"}, {"depends_on: {b: {condition: service_started}}", "depends_on: 3"}, {"networks: [n]", "networks: x"}, {"ulimits: {nofile: 3}", "ulimits: {nofile: x}"},
+		{"extra_hosts: [\"a=1.1.1.1\"]", "extra_hosts: 3"}, {"environment: [A=1]", "environment: x"}, {"labels: {a: b}", "labels: 3"}, {"dns: 1.1.1.1", "dns: {a: b}"}, {"tmpfs: /run", "tmpfs: {a: b}"},
+		{"env_file: a.env", "env_file: {path: x}"}, {"ports: [\"80\"]", "ports: x"}, {"volumes: [\"/a\"]", "volumes: {a: b}"}, {"command: x", "command: {a: b}"}, {"healthcheck: {test: [CMD, x]}", "healthcheck: x"}} {
+		cases = append(cases, c01Case{ID: len(cases), Family: "alias", Desc: pr[0] + " <- " + pr[1], Expect: "either",
+			Files: map[string]string{"base.yaml": "services:\n  a:\n    image: img\n    " + pr[0] + "\n  b: {image: img}\nnetworks: {n: {}}\n", "over.yaml": "services:\n  a:\n    " + pr[1] + "\n"}, Main: []string{"base.yaml", "over.yaml"}})
+	}
+	for _, pr := range [][2]string{{"networks: {n: {ipam: {config: [{subnet: 10.0.0.0/24}]}}}", "networks: {n: {ipam: {config: [x]}}}"}, {"networks: {n: {ipam: {config: [{subnet: 10.0.0.0/24}]}}}", "networks: {n: {ipam: {config: x}}}"},
+		{"networks: {n: {labels: [a=b]}}", "networks: {n: {labels: 3}}"}, {"volumes: {v: {labels: {a: b}}}", "volumes: {v: x}"}, {"secrets: {s: {file: ./s}}", "secrets: {s: [a]}"}, {"configs: {c: {file: ./c}}", "configs: [a]"}} {
+		cases = append(cases, c01Case{ID: len(cases), Family: "alias", Desc: pr[0] + " <- " + pr[1], Expect: "either",
+			Files: map[string]string{"base.yaml": "services:\n  a: {image: img}\n" + pr[0] + "\n", "over.yaml": pr[1] + "\n"}, Main: []string{"base.yaml", "over.yaml"}})
+	}
+	// every digraph of depends_on edges on up to 3 services: a cycle must be an error (Cycle.tla)
+	cyc := filepath.Join(c.Work, "cycle-out.ndjson")
+	if rc, err := c.RunTLC(core.TLCOpts{Module: "Cycle", CfgText: "SPECIFICATION Spec\nCONSTANTS MinN = 1\n MaxN = 3\nINVARIANTS SearchIsExact\nCHECK_DEADLOCK FALSE\n", Env: map[string]string{"OUT": cyc}, Workers: 1, Timeout: 10 * time.Minute, Name: "cycle"}); err == nil && rc.Violated == "" {
+		c.AddTLC(rc)
+		_, _ = core.ReadVectors(cyc, func(raw json.RawMessage) error {
+			var v struct {
+				N      int     `json:"n"`
+				Edges  [][]int `json:"edges"`
+				Cyclic bool    `json:"cyclic"`
+			}
+			if json.Unmarshal(raw, &v) != nil {
+				return nil
+			}
+			names := []string{"", "app", "db", "cache"} // sorted so that the first service need not be on the cycle
+			sort.Strings(names[1:])
+			deps := map[int][]string{}
+			for _, e := range v.Edges {
+				deps[e[0]] = append(deps[e[0]], names[e[1]])
+			}
+			var sb strings.Builder
+			sb.WriteString("services:\n")
+			for i := 1; i <= v.N; i++ {
+				fmt.Fprintf(&sb, "  %s:\n    image: img\n", names[i])
+				if len(deps[i]) > 0 {
+					fmt.Fprintf(&sb, "    depends_on: [%s]\n", strings.Join(deps[i], ", "))
+				}
+			}
+			exp := "either"
+			if v.Cyclic {
+				exp = "error"
+			}
+			cases = append(cases, c01Case{ID: len(cases), Family: "cycle", Desc: fmt.Sprintf("depends_on %v cyclic=%v", v.Edges, v.Cyclic), Expect: exp, Files: map[string]string{"compose.yaml": sb.String()}, Main: []string{"compose.yaml"}})
+			return nil
+		})
+	}
+	// every node of the repository's full example replaced by values of other kinds (siblings stay valid)
+	if fb, err := os.ReadFile("/repo/loader/full-example.yml"); err == nil {
+		var tree interface{}
+		if yaml.Unmarshal(fb, &tree) == nil {
+			type step struct {
+				key string
+				idx int
+			}
+			var paths [][]step
+			var walk func(n interface{}, p []step)
+			walk = func(n interface{}, p []step) {
+				if len(p) > 0 {
+					paths = append(paths, append([]step{}, p...))
+				}
+				switch x := n.(type) {
+				case map[string]interface{}:
+					for k, v := range x {
+						walk(v, append(p, step{key: k, idx: -1}))
+					}
+				case []interface{}:
+					for i, v := range x {
+						if i < 2 {
+							walk(v, append(p, step{idx: i}))
+						}
+					}
+				}
+			}
+			walk(tree, nil)
+			sort.Slice(paths, func(i, j int) bool { return fmt.Sprint(paths[i]) < fmt.Sprint(paths[j]) })
+			var replace func(n interface{}, p []step, val interface{}) interface{}
+			replace = func(n interface{}, p []step, val interface{}) interface{} {
+				if len(p) == 0 {
+					return val
+				}
+				switch x := n.(type) {
+				case map[string]interface{}:
+					m := map[string]interface{}{}
+					for k, v := range x {
+						m[k] = v
+					}
+					m[p[0].key] = replace(x[p[0].key], p[1:], val)
+					return m
+				case []interface{}:
+					l := append([]interface{}{}, x...)
+					l[p[0].idx] = replace(x[p[0].idx], p[1:], val)
+					return l
+				}
+				return val
+			}
+			kinds := []string{"null", "int", "string", "empty-list", "map", "odd-strings", "odd-map", "list-of-maps", "bool", "nested-list"}
+			every := 4
+			if !c.Quick() {
+				every = 1
+			}
+			for pi, p := range paths {
+				for ki, k := range kinds {
+					if (pi+ki+int(c.Seed))%every != 0 {
+						continue
+					}
+					doc := flowYAML(replace(tree, p, kindValue(k)))
+					cases = append(cases, c01Case{ID: len(cases), Family: "example", Desc: fmt.Sprintf("full-example%v = %s", p, k), Expect: "either", Files: map[string]string{"compose.yaml": doc},
+						Main: []string{"compose.yaml"}, Switches: []string{"SkipConsistencyCheck", "SkipResolveEnvironment"}})
+				}
+			}
+			c.Set("full_example_nodes", len(paths))
+		}
+	}
 	// ---- seeded byte mutations of the generated documents (totality only)
 	nm := 10000
 	if !c.Quick() {
@@ -673,7 +818,9 @@ func C01(c *core.Ctx) {
 		case "both", "neither":
 			c.Report(core.Finding{Sig: r.Outcome, Detail: fmt.Sprintf("load returned %s a project and an error — %s: %s", r.Outcome, cs.Family, cs.Desc), Replay: rep})
 		case "project":
-			if cs.Expect == "error" && cs.Family == "fault" {
+			if cs.Expect == "error" && cs.Family == "cycle" {
+				c.Report(core.Finding{Sig: "cycle-accepted", Detail: "a cyclic depends_on graph loads — " + cs.Desc, Replay: rep})
+			} else if cs.Expect == "error" && cs.Family == "fault" {
 				c.Report(core.Finding{Sig: "accepted:fault:" + cs.Desc, Detail: "a referenced file is missing (and its phase is enabled) but the load succeeds — " + cs.Desc, Replay: rep})
 			} else if cs.Expect == "error" {
 				inadmissible++ // the schema does not admit the kind there, yet the load succeeds: not a claim of C01, recorded as an observation
